@@ -665,6 +665,10 @@ impl Mon {
 				match (&r, expect_stream) {
 					(Err(PErr::Stream(p)), true) if *p == off => (),
 					(Err(e), false) if check_error(rd, e).is_ok() => (),
+					// a parser that reads ahead may meet the failing item before it reports the earlier syntax
+					// error; the property orders the two for byte input only (ill-formed UTF-8), not for a
+					// failing character source: both outcomes are accepted, the position must be right
+					(Err(PErr::Stream(p)), false) if *p == off => self.rep.count("stream_error_reported_before_an_earlier_syntax_error(noted)", 1),
 					_ => {
 						self.viol(
 							"C07",
